@@ -12,6 +12,19 @@ def pTriples : P (List (List (List Nat) × List (List Nat) × List (List Nat))) 
 def okTexts (g : Bool) (ts : List (List (List Nat) × List (List Nat) × List (List Nat))) : Bool :=
   g || ts.all (fun (a, b, c) => singletons a && singletons b && singletons c)
 
+abbrev Triple := List (List Nat) × List (List Nat) × List (List Nat)
+abbrev RawSub := List (Nat × Nat) × List (Nat × Nat) × List (Nat × Nat) × List (Nat × Nat × Nat)
+
+def mkSpellSub (r : RawSub) : Option SpellSub :=
+  (r.2.2.2.mapM (fun (x : Nat × Nat × Nat) => (EKind.ofNat? x.1).map (fun k => (k, x.2.1, x.2.2)))).map
+    (fun o => { mit := r.1, mip := r.2.1, mpt := r.2.2.1, ops := o })
+
+def spellAnswer (sa : Bool) (bn bd : Nat) (zs : List (Triple × SpellSub)) : String :=
+  if !(zs.all (fun z => spellSubOk z.1.1 z.1.2.1 z.1.2.2 z.2)) then "refuse sub-result-not-admissible" else
+  match zs.mapM (fun z => spellCountsWith z.1.1 z.1.2.1 z.1.2.2 z.2) with
+  | some cs => okQ3 (if sa then seqAvgF1 cs bn bd else microF1 cs bn bd)
+  | none => err "group-words-assert"
+
 def metricsD (op : String) (args : List Nat) : Option String :=
   match op with
   | "binf1" => some <| match runP (do let a ← pList pBool; let b ← pList pBool; let bn ← pNat; let bd ← pNat; pure (a, b, bn, bd)) args with
@@ -40,12 +53,20 @@ def metricsD (op : String) (args : List Nat) : Option String :=
         | some cs => okQ3 (if sa then seqAvgF1 cs bn bd else microF1 cs bn bd)
         | none => err "ops"
       | none => reject
-  | "spellf1" => some <| match runP (do let g ← pBool; let sa ← pBool; let bn ← pNat; let bd ← pNat; let ts ← pTriples; pure (g, sa, bn, bd, ts)) args with
-      | some (g, sa, bn, bd, ts) =>
-        if bd == 0 || !okTexts g ts then reject else
-        match ts.mapM (fun (i, p, t) => spellCounts i p t) with
-        | some cs => okQ3 (if sa then seqAvgF1 cs bn bd else microF1 cs bn bd)
-        | none => err "group-words-assert"
+  | "spellf1" => some <| match runP (do
+        let g ← pBool; let sa ← pBool; let bn ← pNat; let bd ← pNat; let ts ← pTriples
+        -- per triple: the sub-results the property leaves open (three word matchings, the edit script), as observed
+        let pPairs : P (List (Nat × Nat)) := pList (pPair pNat pNat)
+        let subs ← pList (do
+          let mit ← pPairs; let mip ← pPairs; let mpt ← pPairs
+          let ops ← pList (do let k ← pNat; let i ← pNat; let j ← pNat; pure (k, i, j))
+          pure (mit, mip, mpt, ops))
+        pure (g, sa, bn, bd, ts, subs)) args with
+      | some (g, sa, bn, bd, ts, subs) =>
+        if bd == 0 || !okTexts g ts || subs.length != ts.length then reject else
+        match subs.mapM mkSpellSub with
+        | none => reject
+        | some ss => spellAnswer sa bn bd (ts.zip ss)
       | none => reject
   | _ => none
 
